@@ -1051,7 +1051,10 @@ where
                         .unwrap_or(trimmed)
                         .trim()
                         .strip_prefix("@jsx")
-                        .map(str::trim)
+                        // `@jsx` must be a whole word (not `@jsxImportSource`, `@jsxFrag`, ...)
+                        // and the pragma is the single word that follows it
+                        .filter(|rest| rest.starts_with(char::is_whitespace))
+                        .and_then(|rest| rest.split_whitespace().next())
                 });
                 if let Some(pragma) = pragma {
                     self.pragma = Some(pragma.to_string());
